@@ -77,8 +77,8 @@ ScenariosMore  == {ScMixed, ScWeeks, ScYears, ScNone}
 
 \* the universe of the "collide" histories: single parts, all their ordered pairs, some triples, and the
 \* same two days as an integer / a timedelta
-CParts == <<P(1, "y"), P(-3, "m"), P(2, "d"), P(-1, "b"), P(5, "h"), P(-5, "h"), P(2, "y"), P(7, "b")>>
-CPartsMore == <<P(1, "q"), P(-2, "w"), P(-90, "n"), P(45, "s"), P(0, "b"), P(-2, "d")>>
+CParts == <<P(1, "y"), P(-3, "m"), P(2, "d"), P(-1, "b"), P(5, "h"), P(-5, "h")>>
+CPartsMore == <<P(2, "y"), P(7, "b"), P(1, "q"), P(-2, "w"), P(-90, "n"), P(45, "s"), P(0, "b"), P(-2, "d")>>
 CTriples == { <<P(1, "y"), P(-3, "m"), P(2, "d")>>, <<P(2, "y"), P(-3, "m"), P(2, "d")>>, <<P(5, "h"), P(-5, "h"), P(5, "h")>>,
               <<P(2, "d"), P(-1, "b"), P(2, "d")>>, <<P(1, "y"), P(1, "y"), P(-3, "m")>>, <<P(-1, "b"), P(7, "b"), P(-1, "b")>> }
 CUniverse(ps) == {Ten(<<ps[i]>>) : i \in 1..Len(ps)} \cup {Ten(<<ps[i], ps[j]>>) : i, j \in 1..Len(ps)}
